@@ -65,6 +65,7 @@ func init() {
 			{"C04.errors-not-dropped", "no error of the operations this property depends on is dropped", 1, func(c *Ctx) { c.errorsNotDropped("C04") }},
 			{"C04.index-writes", "StoreIndex of every back end reports success only after its write primitives completed", 6, func(c *Ctx) { c.writePrimitives("C04") }},
 			{"C04.outputs-truncated", "output files are created truncating (shared with C13/C05)", 10, func(c *Ctx) { c.outputsTruncated() }},
+			{"C04.retried-reader-fresh", "a reader consumed inside a retry cycle is created inside it", 1, func(c *Ctx) { c.retriedReaderFresh() }},
 		},
 	})
 }
